@@ -18,6 +18,17 @@ def run_case(rep, rng, ci, dev, cfg, texts, recs_all):
     tp = cfg["terminal_psi"]
     info = dev.terminal_info()
     tsites = np.unique(np.concatenate([np.asarray(t.site_indices, dtype=int) for t in info]))
+    # the pinned set against terminal membership recomputed from first principles (boundary sites inside the polygon)
+    ind = meshes.independent_terminal_sites(dev)
+    for t in info:
+        sure, maybe = ind[t.name]
+        got = set(int(i) for i in t.site_indices)
+        if not set(sure.tolist()) <= got:
+            rep.violation("a boundary site inside a terminal polygon is not among the terminal (pinned) sites",
+                          {"run": ci, "terminal": t.name, "missing": sorted(set(sure.tolist()) - got)[:5]})
+        if not got <= set(maybe.tolist()):
+            rep.violation("a site outside the terminal polygon (or not on the boundary) is among the terminal (pinned) sites",
+                          {"run": ci, "terminal": t.name, "extra": sorted(got - set(maybe.tolist()))[:5]})
     others = np.setdiff1d(np.arange(len(dev.mesh.sites)), tsites)
     names = [t.name for t in dev.terminals]
     cur = {names[0]: cfg["current"], names[1]: -cfg["current"]}
